@@ -120,10 +120,54 @@ def parse(txt):
     return res
 
 
+def alias_lint(slot, names):
+    """Kani 0.68 quirk: a constant of the code under test whose bytes equal the initializer of a `static` of the harness crate is
+    compiled as a read of that static.  -> {harness: [(function, static)]} for every function OUTSIDE the crate `rustgen_harness`
+    that references one of the crate's statics (statics = what __CPROVER_initialize assigns)."""
+    import glob
+    hits = {}
+    root = os.path.join(WORK, "slot%d" % slot, "kani")
+    for n in names:
+        files = [f for f in glob.glob(os.path.join(root, "*", "debug", "build", "rustgen-harness", "*", "out", "*%d%s.out" % (len(n), n)))
+                 if not f.endswith(".symtab.out")]
+        if not files:
+            hits[n] = [("-", "goto binary not found: aliasing lint not run")]
+            continue
+        f = max(files, key=os.path.getmtime)
+        rc, out, dt = vlib.run_cmd(["goto-instrument", "--show-goto-functions", f], timeout=300)
+        if rc != 0:
+            hits[n] = [("-", "goto-instrument failed: aliasing lint not run")]
+            continue
+        statics, cur, in_init = set(), None, False
+        for line in out.split("\n"):
+            m = re.match(r"^(\S.*) /\* (\S+) \*/$", line)
+            if m:
+                in_init = m.group(1) == "__CPROVER_initialize"
+                continue
+            if in_init:
+                m = re.search(r"ASSIGN (_RNv\w*?15rustgen_harness\w+)", line)
+                if m:
+                    statics.add(m.group(1))
+        bad = {}
+        for line in out.split("\n"):
+            m = re.match(r"^(\S.*) /\* (\S+) \*/$", line)
+            if m:
+                cur = m.group(1)
+                continue
+            if cur and not re.match(r"^<?(b|verif_host)::|^__CPROVER", cur):
+                for sym in re.findall(r"_RNv\w*?15rustgen_harness\w+", line):
+                    if sym in statics:
+                        bad[(cur, sym)] = 1
+        if bad:
+            hits[n] = sorted(bad)
+    return hits
+
+
 def run_harnesses(crate_dir, names, slot, jobs, timeout, harness_timeout, log, extra=()):
     """run the given harnesses of the crate; returns ({name: result}, seconds, raw text)"""
     cmd = ["cargo", "kani", "--target-dir", os.path.join(WORK, "slot%d" % slot), "--output-format", "terse",
-           "-Z", "stubbing", "-Z", "unstable-options", "--harness-timeout", "%ds" % harness_timeout, "-j", str(jobs), "--exact"]
+           "-Z", "stubbing", "-Z", "unstable-options", "--harness-timeout", "%ds" % harness_timeout, "-j", str(jobs), "--exact",
+           "--no-assertion-reach-checks"]
     for n in names:
         cmd += ["--harness", MODPATH + n]
     cmd += list(extra)
@@ -131,6 +175,10 @@ def run_harnesses(crate_dir, names, slot, jobs, timeout, harness_timeout, log, e
     rc, txt, dt = vlib.run_cmd(cmd, cwd=crate_dir, timeout=timeout, mem_gb=12, log=log,
                                env={"CARGO_NET_OFFLINE": "true", "CARGO_BUILD_JOBS": str(max(2, jobs))})
     res = parse(txt)
+    lint = alias_lint(slot, [n for n in names if n in res and res[n]["status"] in ("ok", "failed")])
+    for n, h in lint.items():
+        res[n]["status"] = "error"
+        res[n]["detail"] = "Kani constant/static aliasing lint: " + "; ".join("%s references %s" % x for x in h[:3])
     for n in names:
         if n not in res or res[n]["status"] == "none":
             why = "timeout" if (rc == -9 or "timed out" in txt) else "no verdict"
